@@ -46,6 +46,15 @@ type Ptr struct {
 	Path []int
 }
 
+// SymPtr points to element Idx (symbolic, in bounds) of the scalar array at (Obj, Path+Off).
+type SymPtr struct {
+	Obj  int
+	Path []int
+	Off  int
+	N    int
+	Idx  *smt.Term
+}
+
 type StructVal struct{ F []Value }
 type ArrayVal struct{ E []Value }
 
